@@ -2,7 +2,7 @@
    [value]. The OCaml driver only parses and prints values; the same [run_case] is evaluated by
    vm_compute in the thorough tier. *)
 From Coq Require Import String Ascii List ZArith NArith Bool DecimalString.
-From Bkl Require Import Model.Value Model.Merge Model.Str Model.Eval Model.Tools Model.Parser Model.Wrapper Model.Files Model.Yaml Model.Root.
+From Bkl Require Import Model.Value Model.Merge Model.Str Model.Eval Model.Tools Model.Parser Model.Wrapper Model.Files Model.Yaml Model.Root Model.Stream.
 Import ListNotations.
 Local Open Scope string_scope.
 Local Open Scope list_scope.
@@ -226,6 +226,15 @@ Definition run_case (c : value) : value :=
                            c_inputs := map str_of (list_of (lookup_or_null "inputs" om)) |} in
             enc_res (fun r => VList [VStr (fst r); VList (snd r)])
                     (bkl_cli o (map str_of (list_of (lookup_or_null "fmts" (map_of t)))) (dec_fs fsv) opts)
+        | _ => bad_case
+        end
+      else if String.eqb opn "framejoin" then
+        (* [[lines of doc 1], [lines of doc 2], ...] -> the lines of the stream *)
+        match args with [VList ds] => VList (map VStr (join_docs (map (fun d => map str_of (list_of d)) ds))) | _ => bad_case end
+      else if String.eqb opn "framesplit" then
+        (* [toml?; lines of a stream] -> the documents' lines *)
+        match args with
+        | [VBool t; VList ls] => VList (map (fun d => VList (map VStr d)) (split_docs t (map str_of ls) []))
         | _ => bad_case
         end
       else if String.eqb opn "rootopen" then
